@@ -490,7 +490,52 @@ private:"""),
     dict(property="C11", name="store-valid-losses-in-errors-slot", rule="R-C11-5", file="src/machine/result.cpp",
          old="store_stats(valid_errors_losses.tensor(1), m_values.tensor(trial, fold, 1, 1));", new="store_stats(valid_errors_losses.tensor(1), m_values.tensor(trial, fold, 1, 0));"),
     dict(property="C11", name="load-stats-mean-stdev-swapped", rule="R-C11-6", file="src/machine/stats.cpp",
-         old="        stats(0), stats(1), stats(2), stats(3), stats(4),  stats(5),", new="        stats(1), stats(0), stats(2), stats(3), stats(4),  stats(5),"),]
+         old="        stats(0), stats(1), stats(2), stats(3), stats(4),  stats(5),", new="        stats(1), stats(0), stats(2), stats(3), stats(4),  stats(5),"),    # ---- C13
+    dict(property="C13", name="evaluate-skips-filter", rule="R-C13-2", file="src/tuner/util.cpp",
+         old="""    const auto it = std::remove_if(igrids.begin(), igrids.end(), op);
+    igrids.erase(it, igrids.end());
+""", new="""    (void)op;
+"""),
+    dict(property="C13", name="push-before-finite-check", rule="R-C13-2", file="src/tuner/util.cpp",
+         old="""        critical(!std::isfinite(values(itrial)), "tuner: invalid value (", values(itrial),
+                 ") detected for parameters (", params.vector(itrial).transpose(), ")!");
+
+        steps.emplace_back(tuner_step_t{igrid, params.tensor(itrial), values(itrial)});""",
+         new="""        steps.emplace_back(tuner_step_t{igrid, params.tensor(itrial), values(itrial)});
+
+        critical(!std::isfinite(values(itrial)), "tuner: invalid value (", values(itrial),
+                 ") detected for parameters (", params.vector(itrial).transpose(), ")!");"""),
+    dict(property="C13", name="sort-removed", rule="R-C13-2", file="src/tuner/util.cpp",
+         old="    std::sort(steps.begin(), steps.end());\n", new=""),
+    dict(property="C13", name="sort-only-when-many", rule="R-C13-2", file="src/tuner/util.cpp",
+         old="    std::sort(steps.begin(), steps.end());", new="    if (steps.size() > 2) { std::sort(steps.begin(), steps.end()); }"),
+    dict(property="C13", name="push-value-of-first-trial", rule="R-C13-2", file="src/tuner/util.cpp",
+         old="steps.emplace_back(tuner_step_t{igrid, params.tensor(itrial), values(itrial)});", new="steps.emplace_back(tuner_step_t{igrid, params.tensor(itrial), values(0)});"),
+    dict(property="C13", name="clip-only-lower-bound", rule="R-C13-3", file="src/tuner/util.cpp",
+         old="if ((igrid.array() - min_igrid.array()).minCoeff() < 0 || (max_igrid.array() - igrid.array()).minCoeff() < 0)",
+         new="if ((igrid.array() - min_igrid.array()).minCoeff() < 0)"),
+    dict(property="C13", name="local-loop-without-budget", rule="R-C13-4", file="src/tuner/local.cpp",
+         old="for (; !steps.empty() && steps.size() < max_evals;)", new="for (; !steps.empty();)"),
+    dict(property="C13", name="surrogate-loop-budget-doubled", rule="R-C13-4", file="src/tuner/surrogate.cpp",
+         old="for (; !steps.empty() && steps.size() < max_evals;)", new="for (; !steps.empty() && steps.size() < 2 * max_evals;)"),
+    dict(property="C13", name="decode-swapped", rule="R-C13-5", file="src/machine/tune.cpp",
+         old="""            const auto fold  = index % folds;
+            const auto trial = index / folds;""", new="""            const auto fold  = index / new_trials;
+            const auto trial = index % folds;"""),
+    dict(property="C13", name="store-under-relative-trial", rule="R-C13-5", file="src/machine/tune.cpp",
+         old="result.store(old_trials + trial, fold, std::move(tr_values), std::move(vd_values), std::move(extra));",
+         new="result.store(trial, fold, std::move(tr_values), std::move(vd_values), std::move(extra));"),
+    dict(property="C13", name="add-inside-task", rule="R-C13-6", file="src/machine/tune.cpp",
+         old="""        result.add(new_params);
+
+        const auto thread_callback = [&](const tensor_size_t index, size_t)
+        {""", new="""        const auto thread_callback = [&](const tensor_size_t index, size_t)
+        {
+            if (index == 0) { result.add(new_params); }"""),
+    dict(property="C13", name="optimum-on-training-error", rule="R-C13-7", file="src/machine/result.cpp",
+         old="const auto value = this->value(trial);", new="const auto value = this->value(trial, split_type::train);"),
+    dict(property="C13", name="callback-called-in-tuner", rule="R-C13-1", file="src/tuner/local.cpp",
+         old="    // local search around current optimum iteratively...", new="    if (steps.empty()) { (void)callback(map_to_grid(spaces, igrids_t{min_igrid})); }"),]
 
 BENIGN = [
     dict(property="C07", name="get-descent-test-inlined", file="src/lsearchk.cpp",
@@ -578,4 +623,12 @@ BENIGN = [
     }"""),
     dict(property="C11", name="early-stopping-merged-condition", file="src/gboost/early_stopping.cpp",
          old="else if (valid_value < m_value - epsilon || valid_samples.size() == 0)", new="else if (valid_samples.size() == 0 || valid_value + epsilon < m_value)"),
+    dict(property="C13", name="budget-min-with-constant", file="src/tuner/local.cpp",
+         old="for (; !steps.empty() && steps.size() < max_evals;)", new="for (; !steps.empty() && steps.size() < std::min(max_evals, size_t{500});)"),
+    dict(property="C13", name="budget-halved", file="src/tuner/surrogate.cpp",
+         old="for (; !steps.empty() && steps.size() < max_evals;)", new="for (; steps.size() < max_evals / 2 && !steps.empty();)"),
+    dict(property="C13", name="optimum-non-strict", file="src/machine/result.cpp",
+         old="""        const auto value = this->value(trial);
+        if (value < best_value)""", new="""        const auto value = this->value(trial);
+        if (value <= best_value)"""),
 ]
